@@ -817,7 +817,7 @@ func acceptStreams(ans string, o schedObs) string {
 func runSched(f lib.Flags, res *lib.Result, drv *lib.Driver) {
 	tie := res.Tie("subscribe-schedules", "K4",
 		"schedules of the concurrent subscribe model executed on a real Collection through the yield points coll.update.beforeSend (a writer committed, not yet published) and coll.onUpdate.beforeListen (subscriber computed its seed, read lock held): 1-6 writes (Add/Update/Upsert/Delete incl. failing ones) over 1-2 ids x 2 values, each in its own writer goroutine, up to two of them committed and unpublished at a time, publications released in commit order, interleaved with Pull(WithInclude p, WithBackpressure(true))'s snapshot and listen steps - at random after a fixed prefix (commits pending at the snapshot; a write started under the subscriber's lock; both; none); a third of the schedules have a SECOND subscriber with a predicate of its own on the same collection (model `msched`, ScVerif/C08/SubscribeMany.lean: both may hold the read lock together, a write gets through only when neither does, a publication reaches whichever of them listen); in a third Bus.Send is taken apart through the yield point bus.send.beforeListener (model `fsched`, ScVerif/C08/SubscribeSend.lean: the Send copies the listener slice, then hands the event to the listeners of the copy one by one, other threads moving in between - a subscriber registering after the copy is not sent the event); half of those have GHOSTS (plain Pulls cancelled as soon as they have registered, before the first step or a little later: dead listeners the bus has not collected; model `gsched`, ScVerif/C08/SubscribeGc.lean: b.listeners, cancel, a Send skipping and remembering dead listeners, Bus.collect as a step observed through the yield point bus.collect.scanned - the number of collects is part of the answer; fixed prefixes make a subscriber register between a Send's copy of the listener slice and its collect); a quarter of the others have LOSSY subscribers (WithBackpressure(false), nothing read before the end of the schedule: everything sent to them is merged by the real mergeCollectionExcess goroutine; model `lsched`: the delivered stream must be one of the streams the merge machine can emit for what the model's subscriber was sent); thorough adds every choice sequence of length 5 for four small programs x three predicates, with two subscribers every sequence of 5 choices out of 4 for two programs, with Bus.Send taken apart every sequence of 6 choices out of 4, and with a lossy subscriber every sequence of 6 choices out of 3 under three predicates; a write started while the subscriber holds the lock must block (model: step disabled) and is re-issued after listen; at the end the delivered seed, the delivered events and List(WithInclude p) are compared with the model's `sched` answer for the executed schedule; non-trivial = predicate not nil; distinct = (predicate, initial writes, executed steps)")
-	mon := res.Monitor("subscribe-fold", "on the same schedules, independent of the model: at the quiescent end, for every subscriber, fold(seed ++ delivered events) = List(WithInclude p) = the filtered plain map; distinct = (predicate, initial writes, executed steps)")
+	mon := res.Monitor("subscribe-fold", "on the same schedules, independent of the model: at the quiescent end, for every subscriber, fold(seed ++ delivered events) = List(WithInclude p) = the filtered plain map; in the schedules with cancelled, uncollected listeners on the bus additionally: every subscriber that has registered and is not cancelled is sent the ADD of the closing fence item; distinct = (predicate, initial writes, executed steps)")
 	r := lib.NewRand(f.Seed + 13)
 	n := f.N(150, 1500)
 	var cases []schedCase
